@@ -125,14 +125,19 @@ def extractElf (b : Bytes) (name : Bytes) : R (Option Bytes) := do
   let namesOff ← readField b a2 8
   extractElfLoop b name shoff entsize namesOff num 0
 
-def shiftOffsets (table : Bytes) (entsize inserted : Nat) : Nat → Nat → R Bytes
+/-- the loop that moves the file offsets of the sections whose data lies at or behind the insertion point `at_` (the end of
+the names section), whatever their index; the names section itself (`skip`) is not looked at -/
+def shiftOffsets (table : Bytes) (entsize inserted at_ skip : Nat) : Nat → Nat → R Bytes
   | 0, _ => .ok table
-  | n + 1, idx => do
+  | n + 1, idx =>
+    if idx = skip then shiftOffsets table entsize inserted at_ skip n (idx + 1) else do
     let oo ← add U64 (idx * entsize) 0x18
     let orig ← readField table oo 8
-    let nw ← add U64 orig inserted
-    let t ← writeField table oo 8 nw
-    shiftOffsets t entsize inserted n (idx + 1)
+    let t ← (if at_ ≤ orig then do
+        let nw ← add U64 orig inserted
+        writeField table oo 8 nw
+      else .ok table)
+    shiftOffsets t entsize inserted at_ skip n (idx + 1)
 
 /-- `add_section_to_elf` -/
 def addElf (b : Bytes) (name : Bytes) (payload : Bytes) : R Bytes := do
@@ -154,7 +159,7 @@ def addElf (b : Bytes) (name : Bytes) (payload : Bytes) : R Bytes := do
   let elf ← spliceAt elf at_ newBytes
   let namesNew ← add U64 namesSize inserted
   let table ← writeField table o2 8 namesNew
-  let table ← shiftOffsets table entsize inserted (num - (strndx + 1)) (strndx + 1)
+  let table ← shiftOffsets table entsize inserted at_ strndx num 0
   let newOff := elf.length
   let elf := elf ++ payload
   let hdr := zeros entsize
